@@ -3,7 +3,8 @@ import vf
 
 SPEC = dict(
     level="proof",
-    harness=dict(pkg_dir="cmd/zoekt-webserver/grpc/server", run="TestVerifC24$", files=["grpcserver/zz_verif_c24_test.go"],
+    harness=dict(pkg_dir="cmd/zoekt-webserver/grpc/server", run="TestVerifC24(Stream)?$",
+                 files=["grpcserver/zz_verif_c24_test.go", "grpcserver/zz_verif_c24s_test.go"],
                  n_quick=260, n_thorough=2000),
     runner=dict(imports=["From ZV Require Import Lib.Base Lib.WireTypes Model.Wire Model.WireGen."], case_type="wcase",
                 mismatch_fn="c24_mismatches", shard=300),
@@ -18,9 +19,13 @@ SPEC = dict(
          "StreamSearch without inner request); a wrapping Streamer records the (query, options) the handler hands to the searcher "
          "and the result it returns: WHandlerA (decoding) and WHandlerR (response = model's encoding of that result) cases. Every run "
          "also: XFromProto(nil) and XFromProto(&X{}) of all 19 zoekt and 18 query struct types, and every ToProto output again with a "
-         "random subset of its sub-messages / map values unset. Non-trivial = encoded value > 200 (150 for queries) characters, and "
+         "random subset of its sub-messages / map values unset. Also every run (Go-side oracle only, TestVerifC24Stream): 10 (thorough 60) "
+         "scripted event sequences (stats-only events; events whose file matches are small / medium / around / above the 1 MiB chunk limit, "
+         "the big match first, in the middle, last) streamed through the real Server.StreamSearch, every stream message serialised and decoded "
+         "with SearchResultFromProto: all file matches in order and the sum of all events' stats must reach the client. Non-trivial = encoded value > 200 (150 for queries) characters, and "
          "every wire-side / handler / unset-message case.",
-    trusted_base=["correspondence harness harness/overlay/grpcserver/zz_verif_c24_test.go (reflective encoder into the model's `val`, generators, Go oracle)",
+    trusted_base=["correspondence harness harness/overlay/grpcserver/zz_verif_c24_test.go (reflective encoder into the model's `val`, generators, Go oracle) and the "
+                  "service-level stream oracle harness/overlay/grpcserver/zz_verif_c24s_test.go (Go-side only: sampling and chunking of stream events are not in the model)",
                   "translator/protofields (go/ast + go/types classification of the conversion expressions); an expression it cannot classify becomes CUnknown and fails fields_ok",
                   "regexp printing/parsing fidelity (CReTo/CReFrom: property C27) and the roaring bitmap codec (CBitmapTo/CBitmapFrom) are assumed inverse",
                   "time.Time represented as (Unix seconds, nanoseconds): location and monotonic clock are not on the wire; Go int is 64 bit",
